@@ -260,10 +260,12 @@ func (self *Fork) vdrKillSome(partial *PartialVdrKillReport, done bool) (*VDRKil
 			}
 			self.deletePartialKill()
 		}
+		// If this was the final pass, the report is final too: what has
+		// been cleaned up before counts for the pipestance's report.
 		if partial == nil {
-			return nil, false
+			return nil, done
 		} else {
-			return &partial.VDRKillReport, false
+			return &partial.VDRKillReport, done
 		}
 	}
 	if partial == nil {
